@@ -17,6 +17,17 @@ PROPS = {
         "assumptions": ["label values flow only through WithLabelValues / addIfNonZero / CurryWith call sites of prometheus/metrics.go and cmd/outline-ss-server/metrics.go"],
         "explanation": "label table + exhaustiveness + db-consultation theorems over all addresses and database behaviours; label schema closed (computed over Gen.Labels regenerated from source); noninterference theorem for tunnel time under injective location-preserving IP renaming; correspondence: GetIPInfoFromAddr/FromIP with a recording DB, and exposition scan for address material",
     },
+    "C13": {
+        "gen_keys": ["lockprog"],
+        "corr": False,
+        "finding_files": [{"file": "Findings/C13.vo", "signature": "C13/lock-order-inversion:shared-listener.mu->listenerManager.mu",
+                           "what": "last Close of a handle takes listenerManager.mu while holding the shared listener's mu; ListenStream/ListenPacket take them in the opposite order (model-level deadlock witness coq/Findings/C13.v)"}],
+        "trusted_base": ["translator G2 (extractor/lockprog.go): control-flow paths, defer placement, the closure binding table (checked against the assignments in the source) and the list of lock-free callees (theories/LockOrder.v lock_free_callees, compared with the callees the translator sees)",
+                         "sync.Mutex semantics: Lock blocks while held, Unlock always enabled"],
+        "assumptions": ["goroutines block only on these mutexes while inside the listener-management calls (channel operations inside the critical sections: close(), non-blocking)",
+                        "one instance per lock class per path (loops are lock-balanced; the translator checks bodies once)"],
+        "explanation": "generic theorems: rank discipline => progress, invariance, every call returns within the program size, for any number of threads and any schedule; instance obligation recomputed over the lock paths regenerated from listeners.go/main.go; PARTIAL on the unchanged tree: one known inversion tolerated by exact edge, refuted in Findings/C13.v; dynamic stress in a child process with goroutine-dump classification as search",
+    },
     "C17": {
         "gen_keys": ["\0"],
         "trusted_base": ["prometheus/client_golang CounterVec.Add sums float64 exactly for whole seconds; Go map iteration order is irrelevant (model uses an association list)",
